@@ -272,7 +272,7 @@ fn build(rng: &mut Rng, thorough: bool) -> Vec<Case> {
     let grid = g::float_grid();
     for (gi, (sym, suf)) in grid.iter().enumerate() {
         for (fz, fzv) in [("N", "Never"), ("A", "Always"), ("I", "IfNoPostfix"), ("P", "Preserve")] {
-            if !thorough && fz != "N" && gi % 3 != 0 {
+            if !thorough && ((fz != "N" && gi % 4 != 0) || (fz == "N" && gi % 2 != 0 && !sym.ends_with(".0") && !sym.ends_with('.'))) {
                 continue;
             }
             // a literal that ends in a dot needs a blank in front of the operator in the source as well
